@@ -86,6 +86,11 @@ fn step<T: Elt>(b: &mut Banded<T>, op: &str, a: &mut Args, out: &mut Out) {
             unchanged(b, &s1, "+"); unchanged(&c, &s2, "+"); let r2 = b.clone() + c.clone(); forms(&r, &r2, "+"); emit(out, &r); }
         "sub" => { let c = band_lit::<T>(a.word()); let (s1, s2) = (toks_b(b), toks_b(&c)); let r = &*b - &c;
             unchanged(b, &s1, "-"); unchanged(&c, &s2, "-"); let r2 = b.clone() - c.clone(); forms(&r, &r2, "-"); emit(out, &r); }
+        // both operands the same object
+        "add_self" => { let s = toks_b(b); let r = &*b + &*b; unchanged(b, &s, "+ (same object)");
+            let r2 = b.clone() + b.clone(); forms(&r, &r2, "+ (same object)"); emit(out, &r); }
+        "sub_self" => { let s = toks_b(b); let r = &*b - &*b; unchanged(b, &s, "- (same object)");
+            let r2 = b.clone() - b.clone(); forms(&r, &r2, "- (same object)"); emit(out, &r); }
         "scale" => { let x = a.s::<T>(); let s = toks_b(b); let r = &*b * x; unchanged(b, &s, "*s"); let r2 = b.clone() * x; forms(&r, &r2, "*s"); emit(out, &r); }
         "div" => { let x = a.s::<T>(); let s = toks_b(b); let r = &*b / x; unchanged(b, &s, "/s"); let r2 = b.clone() / x; forms(&r, &r2, "/s"); emit(out, &r); }
         "mulv" => { let v = a.v::<T>(); let (s1, s2) = (toks_b(b), toks_v(&v)); let r = &*b * &v;
